@@ -379,6 +379,31 @@ def rule_dimguard(ctx, py):
     ctx.floor(R, 12)
 
 
+def rule_set_at(ctx, py):
+    """C06.SET-AT -- an element written into a quantity array is the given quantity converted to the array's units: every value
+    UnitArray.set_at stores is `<quantity>.convert(self.units).value` (or, under a number test, the bare number, which is taken
+    to be in the array's units already).  A `.value` taken without that conversion stores 5 mm as 5 in an array of metres."""
+    R = "C06.SET-AT"
+    f = py.fn("units.UnitArray.set_at")
+    recs = []
+
+    def on(node, facts):
+        if isinstance(node, ast.Assign) and isinstance(node.targets[0], ast.Subscript) and \
+                pyfe.src(node.targets[0].value) in ("self.value", "self._value"):
+            recs.append((node, set(facts)))
+    pya.must_facts(f, on_stmt=on)
+    ctx.need(recs, R, "UnitArray.set_at: no element store found")
+    vpar = [p_ for p_ in pyfe.params(f) if p_ != "self"][-1]
+    for node, facts in recs:
+        v = node.value
+        conv = isinstance(v, ast.Attribute) and isinstance(v.value, ast.Call) and isinstance(v.value.func, ast.Attribute) and \
+            v.value.func.attr == "convert" and v.value.args and pyfe.src(v.value.args[0]) in ("self.units", "self._units", "self.units.sys")
+        bare = isinstance(v, ast.Name) and v.id == vpar and (("isnumber(%s)" % vpar, True) in facts)
+        ctx.check(conv or bare, R, node, f._qual, pyfe.src(node)[:70], "converted to the array's units (or a bare number)",
+                  "the number stored is `%s`: it is not the given quantity converted to the array's units" % pyfe.src(v)[:50])
+    ctx.floor(R, 2)
+
+
 def rule_eq3(ctx, py):
     """C06.EQ3 -- the dimension guard of the conversions (`u.dim != v.units.dim -> raise`) and the `sys == sys` short cuts compare
     _UnitsComponentDict objects: their __eq__ must be true only when all three components are equal."""
@@ -490,6 +515,7 @@ def run(ctx):
     rule_dimguard(ctx, py)
     rule_eq3(ctx, py)
     rule_convert_args(ctx, py)
+    rule_set_at(ctx, py)
     # shared clause: a unit string's factors of one base kind add their exponents -- the litre and molar families get their SI
     # meaning (dm3, mol.dm-3) only through that sum
     from ..core import borrow
